@@ -456,6 +456,22 @@ func (r *run) mutant(st *Step, sp *spec, honest *auxpow.AuxPow, hash common.Uint
 		ap := clone(honest)
 		flipBit(&ap.ParBlockHeader.MerkleRoot, a)
 		note(r.expect("parent-merkle-root-changed", "one bit of the parent header's merkle root flipped", ap, hash, st.Chain))
+	case "parroot-zero-index-allones":
+		// Byzantine pool: a parent header whose merkle root is all zero and a
+		// coinbase index of 0xffffffff on the wire (the two 32-bit index fields
+		// are the only ones a signed/unsigned slip could turn into "-1")
+		ap := clone(honest)
+		ap.ParBlockHeader.MerkleRoot = common.Uint256{}
+		ap.ParMerkleIndex = 0xffffffff
+		if a%2 == 1 {
+			ap.ParCoinBaseMerkle = nil
+		}
+		// this one is about the decoder: it is judged as it arrives over the wire
+		if wired, err := relay(ap); err == nil {
+			ap = wired
+			c.Probe("byzantine-proof-judged-after-wire-decoding")
+		}
+		note(r.expect("parent-merkle-root-changed", "parent header merkle root all zero, ParMerkleIndex 0xffffffff", ap, hash, st.Chain))
 	case "parbranch-bit":
 		if pl == 0 {
 			return
